@@ -373,3 +373,139 @@ def message_text_intact(ck, F, rid, consequence):
     rs = returns(acc)
     oka = len(rs) == 1 and is_this_field(rs[0].get("e"), LMc + "::m_message")
     ck.ob(rid, sitestr(acc), oka, "message() returns m_message" if oka else "message() returns %s" % (describe(rs[0].get("e"))[:40] if rs else "?"), key="LogMessage::message|return")
+
+
+UNLOCKED_STDIO = ("fwrite_unlocked", "fflush_unlocked", "fputs_unlocked", "fputc_unlocked", "putc_unlocked", "putchar_unlocked", "fread_unlocked", "fgets_unlocked",
+                  "getc_unlocked", "getchar_unlocked", "fputws_unlocked", "fputwc_unlocked", "putwc_unlocked", "putwchar_unlocked", "clearerr_unlocked", "__fsetlocking",
+                  "_fwrite_nolock", "_fflush_nolock", "_fputc_nolock", "_putc_nolock", "_fputs_nolock", "_putchar_nolock")
+
+
+def process_wide_streams_locked(ck, F, rid):
+    """stdout / stderr are shared by every pipeline of the process (and by the rest of the program); a pipeline's lock covers one pipeline.  Library code
+    must therefore leave the C library's own stream lock in place: no *_unlocked / _nolock stdio call, no __fsetlocking, no sync_with_stdio(false)."""
+    n, bad = 0, []
+    for f in F.fns.values():
+        if f.body is None or not in_lib(f.file):
+            continue
+        for c in f.calls():
+            short = strip_tmpl(c.get("callee") or "").split("::")[-1]
+            if short in ("fwrite", "fflush", "fputs", "fputc", "putc", "puts", "printf", "fprintf", "vfprintf", "operator<<", "flush", "endl", "write", "put") and \
+               any(x.get("k") == "ref" and (x.get("name") or "").split("::")[-1] in ("stdout", "stderr", "cout", "cerr", "clog") for x in walk(c)):
+                n += 1
+            if short in UNLOCKED_STDIO:
+                bad.append((f, c, "%s() bypasses the stream's own lock" % short))
+            if short == "sync_with_stdio" and c.get("args") and const_int(c["args"][0]) == 0:
+                bad.append((f, c, "sync_with_stdio(false) makes the standard streams unsynchronised"))
+    for f, c, why in bad:
+        ck.ob(rid, sitestr(f, c), False, "%s: the stream is process-wide, the pipeline's lock is per pipeline - a Logger and a bare pipeline (or two loggers' sinks, or the application's own output) "
+              "writing to it at the same time race on the stdio buffer: records are lost, duplicated or torn" % why, key="stdio|unlocked")
+    ck.ob(rid, "(library)", not bad, "%d writes to the process-wide standard streams, all through calls that take the stream's own lock" % n, key="stdio|summary")
+
+
+def _origin(F, fn, e, depth=0, seen=None):
+    """where a handler pointer comes from: {"fresh", "param", "static", "field", "unknown"}"""
+    seen = seen if seen is not None else set()
+    e = skip_copies(e) if isinstance(e, dict) else None
+    if not isinstance(e, dict) or depth > 6:
+        return {"unknown"}
+    k = e.get("k")
+    if k == "call":
+        c = strip_tmpl(e.get("callee") or "")
+        short = c.split("::")[-1]
+        if c in ("QSharedPointer::create", "std::make_shared", "std::make_unique"):
+            return {"fresh"}
+        if short in ("toStrongRef", "lock", "value", "operator[]", "take", "first", "last", "at", "data", "get", "staticCast", "dynamicCast", "objectCast", "constCast", "qSharedPointerCast",
+                     "qSharedPointerDynamicCast", "qSharedPointerObjectCast", "operator->", "operator*", "sharedFromThis") and (isinstance(e.get("obj"), dict) or e.get("args")):
+            return _origin(F, fn, e.get("obj") if isinstance(e.get("obj"), dict) else e["args"][0], depth + 1, seen)
+        h = F.fns.get(e.get("fn"))
+        if h is not None and h.body is not None and in_lib(h.file) and h.id not in seen:
+            seen.add(h.id)
+            out = set()
+            for r in returns(h):
+                out |= _origin(F, h, r.get("e"), depth + 1, seen)
+            # a parameter of the helper is whatever the caller passed
+            if "param" in out:
+                out.discard("param")
+                for a in e.get("args") or []:
+                    out |= _origin(F, fn, a, depth + 1, seen)
+            return out or {"unknown"}
+        return {"unknown"}
+    if k in ("construct", "cast", "defaultinit", "materialize", "bindtemp") and (e.get("args") or e.get("e")):
+        a = (e.get("args") or [e.get("e")])[0]
+        if isinstance(skip_copies(a), dict) and skip_copies(a).get("k") == "new":
+            return {"fresh"}
+        return _origin(F, fn, a, depth + 1, seen)
+    if k == "new":
+        return {"fresh"}
+    if k == "cond":
+        return _origin(F, fn, e.get("t"), depth + 1, seen) | _origin(F, fn, e.get("f"), depth + 1, seen)
+    if k == "ref":
+        dk = e.get("dk")
+        if dk == "param":
+            return {"param"}
+        if dk == "local":
+            if e.get("static"):
+                return {"static"}
+            key = ("l", e.get("decl"))
+            if key in seen:
+                return set()
+            seen.add(key)
+            g = [gv for gv in F.globals.values() if gv.get("decl") == e.get("decl")]
+            if g and g[0].get("staticlocal"):
+                return {"static"}
+            out = set()
+            for w in _stored_values(fn, e.get("decl")):
+                out |= _origin(F, fn, w, depth + 1, seen)
+            return out or {"unknown"}
+        if dk in ("global", "var", "staticmember") or any(gv.get("decl") == e.get("decl") for gv in F.globals.values()):
+            return {"static"}
+        return {"unknown"}
+    if k == "member":
+        return {"field"}
+    return {"unknown"}
+
+
+def builders_create_fresh_handlers(ck, F, rid, SP="QtLogger::SimplePipeline", P="QtLogger::Pipeline"):
+    """every handler a SimplePipeline builder method adds is created by that call (XPtr::create) or is the caller's own argument: a handler handed out of
+    process-wide storage is shared by pipelines that lock independently"""
+    n = 0
+    for f in sorted((x for x in F.fns.values() if x.cls == SP and x.body is not None and x.d.get("kind") == "method"), key=lambda x: x.sig):
+        adds = [c for c in f.calls() if strip_tmpl(c.get("callee") or "") in (P + "::append", P + "::operator<<", "QtLogger::SortedPipeline::appendPipeline", "QtLogger::SortedPipeline::appendFilter",
+                                                                               "QtLogger::SortedPipeline::appendAttrHandler", "QtLogger::SortedPipeline::appendSink", "QtLogger::SortedPipeline::setFormatter")
+                and c.get("args")]
+        for c in adds:
+            n += 1
+            o = _origin(F, f, c["args"][-1])
+            short = f.name.split("::")[-1]
+            if "static" in o:
+                # a process-wide object without data members (QtLogMessageFormatter::instance()) has nothing two pipelines could race on
+                import re as _re
+                x_ = skip_copies(c["args"][-1])
+                while isinstance(x_, dict) and x_.get("k") in ("construct", "cast", "materialize", "bindtemp") and len(x_.get("args") or ([x_["e"]] if isinstance(x_.get("e"), dict) else [])) == 1:
+                    x_ = skip_copies((x_.get("args") or [x_.get("e")])[0])
+                t = (x_.get("type") if isinstance(x_, dict) else "") or ""
+                m_ = _re.search(r"QSharedPointer<\s*(?:const\s+)?([\w:]+)", t)
+                cls_ = m_.group(1) if m_ else None
+                if cls_ and not cls_.startswith("QtLogger::"):
+                    cls_ = "QtLogger::" + cls_
+                fam = None
+                if cls_ and F.records.get(cls_):
+                    fam = {cls_} | F.subclasses(cls_)
+                    todo_ = [cls_]
+                    while todo_:
+                        for b_ in (F.records.get(todo_.pop()) or {}).get("bases", []):
+                            if b_["type"] in F.records and b_["type"] not in fam:
+                                fam.add(b_["type"])
+                                todo_.append(b_["type"])
+                flds = [fl.get("name") for k_ in (fam or ()) for fl in (F.records.get(k_) or {}).get("fields", []) if not fl.get("static")] if fam else None
+                if fam is not None and not flds:
+                    ck.ob(rid, sitestr(f, c), True, "%s() adds a process-wide %s, a class without data members (nothing to share)" % (short, cls_.split("::")[-1]), key="builder-shares|%s" % short)
+                    continue
+                if fam is None:
+                    ck.ob(rid, sitestr(f, c), None, "%s() adds a handler taken out of process-wide storage whose class could not be determined" % short, key="builder-shares|%s" % short)
+                    continue
+                ck.ob(rid, sitestr(f, c), False, "%s() adds a handler taken out of process-wide storage: two pipelines that ask for it share one object, and each runs it under its own lock only - an installed Logger and a bare "
+                      "pipeline enter the same sink at the same time (write buffer, rotation state)" % short, key="builder-shares|%s" % short)
+            else:
+                ck.ob(rid, sitestr(f, c), True if o <= {"fresh", "param"} else None, "%s() adds %s" % (short, "/".join(sorted(o))), key="builder-shares|%s" % short)
+    ck.require(n >= 22, "only %d handler additions in SimplePipeline's builder methods (25 confirmed by hand)" % n)
